@@ -5,6 +5,7 @@ import (
 	"encoding/json"
 	"errors"
 	"fmt"
+	"sort"
 	"sync"
 
 	flyt "github.com/mark3labs/flyt"
@@ -448,8 +449,119 @@ func runC17(c *Cfg) {
 		}
 		r.Nontrivial(fmt.Sprintf("big %d %d %v %v %d %s", cs.N, cs.C, cs.ExecR, cs.Builder, cs.FailEvery, cs.FailAs))
 	})
+	// the same batch node object run several times; prep hands back the SAME backing slice with new contents each time
+	// (a work list that is refilled in place): exec receives what prep returned in THIS run
+	for v := 0; v < 16; v++ {
+		rc := &ReuseCase{Family: "batch-node-reused-with-refilled-list", PrepAny: v&1 != 0, ExecR: v&2 != 0, C: []int{0, 3}[v>>2&1], ViaFlowLoop: v&8 != 0}
+		fs := runReuseCase(rc)
+		r.Eval()
+		r.Count("context.batch-reused", 1)
+		for _, f := range fs {
+			r.Violate("C17", "C17:"+f.key, f.detail, rc)
+		}
+		r.Nontrivial(fmt.Sprintf("reuse %v %v %d %v", rc.PrepAny, rc.ExecR, rc.C, rc.ViaFlowLoop))
+	}
 	r.Exhaustive = true
 	r.Note(fmt.Sprintf("style x construction x context x error-result grid enumerated completely over %d zoo payloads: %d cases", nz, len(cases)))
+}
+
+// ReuseCase: one batch node object, three passes, the work list refilled in place between passes.
+type ReuseCase struct {
+	Family      string `json:"family"`
+	PrepAny     bool   `json:"prep_any"` // prep through the constructor option (returns []any) instead of the builder method ([]Result)
+	ExecR       bool   `json:"exec_r"`
+	C           int    `json:"c"`
+	ViaFlowLoop bool   `json:"via_flow_loop"` // the passes are visits of a flow self-loop instead of separate flyt.Run calls
+}
+
+func runReuseCase(cs *ReuseCase) (fs []finding) {
+	add := func(key, f string, a ...any) {
+		if len(fs) < 3 {
+			fs = append(fs, finding{key, fmt.Sprintf(f, a...)})
+		}
+	}
+	defer func() {
+		if pn := recover(); pn != nil {
+			fs = append(fs, finding{"panic:batch-reused", fmt.Sprint(pn)})
+		}
+	}()
+	const n = 5
+	listAny := make([]any, n)
+	listRes := make([]flyt.Result, n)
+	pass := 0
+	var mu sync.Mutex
+	got := map[int][]int{} // pass -> values exec received
+	var postItems [][]int
+	fill := func() {
+		pass++
+		for i := 0; i < n; i++ {
+			listAny[i] = pass*100 + i
+			listRes[i] = flyt.NewResult(pass*100 + i)
+		}
+	}
+	execAny := func(ctx context.Context, v any) (any, error) {
+		mu.Lock()
+		got[pass] = append(got[pass], v.(int))
+		mu.Unlock()
+		return v, nil
+	}
+	execRes := func(ctx context.Context, it flyt.Result) (flyt.Result, error) {
+		v, err := execAny(ctx, it.Value())
+		return flyt.NewResult(v), err
+	}
+	var opts []any
+	if cs.PrepAny {
+		opts = append(opts, flyt.WithPrepFuncAny(func(ctx context.Context, s *flyt.SharedStore) (any, error) { fill(); return listAny, nil }))
+	}
+	bn := flyt.NewBatchNode(opts...).WithBatchConcurrency(cs.C)
+	if !cs.PrepAny {
+		bn = bn.WithPrepFunc(func(ctx context.Context, s *flyt.SharedStore) ([]flyt.Result, error) { fill(); return listRes, nil })
+	}
+	if cs.ExecR {
+		bn = bn.WithExecFunc(execRes)
+	} else {
+		bn = bn.WithExecFuncAny(execAny)
+	}
+	bn = bn.WithPostFunc(func(ctx context.Context, s *flyt.SharedStore, items, results []flyt.Result) (flyt.Action, error) {
+		var vs []int
+		for _, it := range items {
+			if x, ok := it.Value().(int); ok {
+				vs = append(vs, x)
+			}
+		}
+		postItems = append(postItems, vs)
+		if len(postItems) < 3 {
+			return "again", nil
+		}
+		return "done", nil
+	})
+	if cs.ViaFlowLoop {
+		f := flyt.NewFlow(bn)
+		f.Connect(bn, "again", bn)
+		if err := f.Run(context.Background(), flyt.NewSharedStore()); err != nil {
+			add("batch-run-error", "flow failed: %v", err)
+			return
+		}
+	} else {
+		for k := 0; k < 3; k++ {
+			if _, err := flyt.Run(context.Background(), bn, flyt.NewSharedStore()); err != nil {
+				add("batch-run-error", "run %d failed: %v", k, err)
+				return
+			}
+		}
+	}
+	for p := 1; p <= 3; p++ {
+		vs := append([]int(nil), got[p]...)
+		sort.Ints(vs)
+		want := []int{p * 100, p*100 + 1, p*100 + 2, p*100 + 3, p*100 + 4}
+		if fmt.Sprint(vs) != fmt.Sprint(want) {
+			add("batch-reused-exec-arg", "pass %d of the same batch node: prep returned %v (the same list, refilled in place), exec received %v", p, want, vs)
+		}
+		if p-1 < len(postItems) && fmt.Sprint(postItems[p-1]) != fmt.Sprint(want) {
+			add("batch-reused-post-items", "pass %d: prep returned %v, post received the items %v", p, want, postItems[p-1])
+		}
+	}
+	return
 }
 
 // BigBatchCase: n items with distinguishable outcomes, some of them failing.
@@ -611,6 +723,14 @@ func runBigBatchCase(cs *BigBatchCase) (fs []finding) {
 }
 
 func replayC17(c *Cfg, spec json.RawMessage) {
+	var rc ReuseCase
+	if json.Unmarshal(spec, &rc) == nil && rc.Family == "batch-node-reused-with-refilled-list" {
+		for _, f := range runReuseCase(&rc) {
+			fmt.Printf(" * finding %s: %s\n", f.key, f.detail)
+			c.Rep.Violate("C17", "C17:"+f.key, f.detail, rc)
+		}
+		return
+	}
 	var big BigBatchCase
 	if json.Unmarshal(spec, &big) == nil && big.Family == "batch-per-item-outcomes" {
 		for _, f := range runBigBatchCase(&big) {
